@@ -72,3 +72,24 @@ Theorem C07_chunking :
   StreamChunked R get_row export_row wf proc C s k chunks = Stream R get_row export_row wf proc C s k.
 Proof. exact chunking. Qed.
 Print Assumptions C07_chunking.
+
+(* The same accounting for jsonline's own per-line functions: the importer of an input template and the
+   exporter of an output template of the row / template model (JL.model.Template with the text layer of
+   JL.std.GoJson), instead of abstract get_row / export_row. [tok_total] then says that reading and writing
+   the line neither panics (excluded for well-formed templates by C17/C16) nor runs out of model fuel. *)
+From JL.std Require Import GoVal.
+From JL.model Require Import Row Template TemplateJson Jl.
+From JL.proofs Require Import JlProofs.
+
+Theorem C07_accounting_jsonline :
+  forall (O : oracles) jfloat jother (ti to : template)
+         (wf : nat -> option Z) (proc : nat -> option eclass -> option eclass) (C : Z) (s : str),
+  0 < C ->
+  Forall (fun l => lenZ l < C) (raw_lines s) ->
+  (forall i e, proc i e = None) -> (forall j, wf j = None) ->
+  Forall (tok_total crow (jl_import O ti) (jl_export O jfloat jother to)) (lines s) ->
+  Stream crow (jl_import O ti) (jl_export O jfloat jother to) wf proc C s None
+  = (ROk, flat_map (line_events crow (jl_import O ti) (jl_export O jfloat jother to)) (lines s)).
+Proof. intros. now apply accounting. Qed.
+Print Assumptions C07_accounting_jsonline.
+
